@@ -431,3 +431,27 @@ def check_split(ctx, F, body, d, what):
 def witness_private(ctx):
     from .. import witness
     witness.check(ctx, ['EncapsulationRepresentationIsPrivate'])
+
+
+@rule('C07', 'rejection-guards', configs=('default', 'p256'))
+def rejection_guards(ctx):
+    """Binding every component into the tag only rejects modifications if the recomputed tag and traps are actually compared,
+    on their full width, before a secret is handed out (C02.guard for user keys, C18.guard for the master key)."""
+    from . import c02, c18
+    c02.guard(ctx)
+    c18.guard(ctx)
+
+
+@rule('C07', 'errors-propagated')
+def errors_propagated(ctx):
+    """'Any modification of encrypted header metadata / PKE ciphertext is rejected': a failing AEAD decryption surfaces as an
+    error — no Result is turned into None / a default on the decrypting paths."""
+    from . import c09, c12
+    F = ctx.F
+    bodies = []
+    roots = [b.key for b in F.fns() if b.name == 'decrypt' and b.impl_trait and (b.impl_trait.endswith('traits::AE') or 'traits::PkeAc' in b.impl_trait)]
+    roots.append('encrypted_header::EncryptedHeader::decrypt')
+    for r in roots:
+        if r in F.bodies:
+            bodies += c12.layer_bodies(F, r)
+    c09.no_swallow(ctx, only=bodies)
